@@ -633,7 +633,10 @@ func (obj *SparseIntMatrix) MarshalJSON() ([]byte, error) {
   if obj.rowMax > obj.rows || obj.colMax > obj.cols {
     n, m := obj.Dims()
     tmp := NullSparseIntMatrix(n, m)
-    tmp.Set(obj)
+    for it := obj.ConstIterator(); it.Ok(); it.Next() {
+      i, j := it.Index()
+      tmp.AT(i, j).Set(it.GetConst())
+    }
     obj = tmp
   }
   k := []int{}
